@@ -62,6 +62,7 @@ class Query:
     backend: list = field(default_factory=list)    # e.g. ["--external-sat-solver","kissat"]
     stretch: bool = False                          # undecided (timeout/oom) is reported, not fatal
     fp_restrict: bool = False                      # type-exact function-pointer targets (vlib/fprestrict.py)
+    seqz: list = None                              # extra -D flags for harness/conc_units.c: generate seqz_gen.c (vlib/seqz.py)
 
 
 @dataclass
@@ -130,8 +131,36 @@ def srcs(q):
     return out
 
 
+def ensure_seqz(q, workdir):
+    """clang -O1 -> LLVM IR of the real lock-free headers -> resumable C (regenerated from /repo on every run)"""
+    gen = os.path.join(workdir, "seqz_gen.c")
+    if os.path.exists(gen):
+        return
+    from vlib import seqz
+    ll = os.path.join(workdir, "conc_units.ll")
+    cmd = ["clang-14", "-O1", "-fno-unroll-loops", "-fno-vectorize", "-fno-slp-vectorize", "-mllvm", "-inline-threshold=100000",
+           "-DUPIPE_VERIF", "-I" + REPO + "/include", "-I" + REPO, "-S", "-emit-llvm"] + \
+          ["-D" + d for d in q.seqz if not d.startswith("ONLY=")] + \
+          [os.path.join(HARNESS, "conc_units.c"), "-o", ll]
+    rc, so, se, w, _ = run(cmd, 120, limit=False)
+    if rc != 0:
+        raise RuntimeError("clang failed on conc_units.c: " + se[-1500:])
+    only = None
+    for d in q.seqz:
+        if d.startswith("ONLY="):
+            only = d[5:].split(",")
+    src, names, ext = seqz.translate(open(ll).read(), only)
+    if only and sorted(names) != sorted(only):
+        raise RuntimeError("seqz: functions %s not found in the IR (got %s)" % (only, names))
+    with open(gen, "w") as f:
+        f.write(src + "\n")
+
+
 def goto_cc(q, out, extra_defs=()):
     cmd = ["goto-cc"] + INCLUDES + ["-DUPIPE_VERIF", "-DVERIF_CBMC"]
+    if q.seqz is not None:
+        ensure_seqz(q, os.path.dirname(out))
+        cmd += ["-I" + os.path.dirname(out)]
     for s in q.shims:
         cmd += ["-include", os.path.join(SHIM, s)]
     for d in list(q.defines) + list(extra_defs):
@@ -156,6 +185,9 @@ def native_build(q, out, extra_defs=()):
     cmd = ["gcc", "-std=gnu99", "-g", "-O0", "-w", "-fsanitize=address,undefined",
            "-fno-sanitize-recover=undefined", "-fno-omit-frame-pointer",
            "-DVERIF_REPLAY", "-DUPIPE_VERIF"] + INCLUDES
+    if q.seqz is not None:
+        ensure_seqz(q, os.path.dirname(out))
+        cmd += ["-I" + os.path.dirname(out)]
     for s in (q.replay_shims or []):
         cmd += ["-include", os.path.join(SHIM, s)]
     for d in list(q.defines) + list(extra_defs):
